@@ -50,6 +50,14 @@ def main():
         lines.append("| %s | %s | %s | %s |" % (os.path.basename(os.path.dirname(p)), str(m.get("summary", "")).replace("|", "\\|")[:300],
                                            m.get("property"), lv.get("status_last_run", "not run").replace("|", "\\|")[:200]))
     benign = "\n".join(lines)
+    lines = ["| id | property-neutral behaviour change | why the property still holds | result |", "|---|---|---|---|"]
+    for p in sorted(glob.glob(os.path.join(VERIF, "neutral", "*", "meta.json"))):
+        m = json.load(open(p))
+        lv = m.get("lead_verification", {})
+        lines.append("| %s | %s | %s | %s |" % (os.path.basename(os.path.dirname(p)), str(m.get("summary", "")).replace("|", "\\|")[:300],
+                                           str(m.get("why_property_holds", "")).replace("|", "\\|").replace("\n", " ")[:300],
+                                           lv.get("status_last_run", "not run").replace("|", "\\|")[:200]))
+    neutral = "\n".join(lines)
     lines = ["| check | spec module | technique | assumptions / bounds (level_note) |", "|---|---|---|---|"]
     for path in sorted(glob.glob(os.path.join(VERIF, "checks", "c[0-9]*.py"))):
         mod = importlib.import_module("checks." + os.path.basename(path)[:-3])
@@ -64,6 +72,8 @@ def main():
     doc = block("SEEDS", seeds, doc)
     if "<!-- BEGIN BENIGN -->" in doc:
         doc = block("BENIGN", benign, doc)
+    if "<!-- BEGIN NEUTRAL -->" in doc:
+        doc = block("NEUTRAL", neutral, doc)
     open(path, "w").write(doc)
     print("DESIGN.md tables regenerated")
 
